@@ -112,6 +112,34 @@ Theorem prom_select_exact_partial : forall (re_match re_full : string -> string 
 Proof. intros re_match re_full Hl. intros. now apply (prom_select_series_exact re_match re_full Hl). Qed.
 Print Assumptions prom_select_exact_partial.
 
+(* End to end (both statements answered by the reference interpreter, then labelsGetter, ReshuffleSeries and
+   the final sort): Select returns each matching series that has a sample in the window exactly once, under
+   its own label set, with exactly its in-window samples in ascending time order. Extra hypotheses: a series
+   with a sample in the window is announced between the date bounds of the labels request (C04's property),
+   and distinct stored series print distinct label strings (ReshuffleSeries' key). *)
+Theorem prom_select_exact_partial_series : forall (re_match re_full : string -> string -> bool),
+  (forall v p, re_match v (anchor p) = re_full v p) ->
+  forall cluster dbname h ms db, use_raw_data h = true -> h_step h = 0 ->
+    db_ok (day_from h) (d_gin db) (d_series db) -> ms <> [] -> (List.length ms <= 8)%nat ->
+    (forall m, List.In m ms -> matcher_guard re_full (d_series db) m) ->
+    (forall sm, List.In sm (d_samples db) -> window_ok h sm = true ->
+       exists s, List.In s (d_series db) /\ t_fp s = sm_fp sm /\ day_from h <= t_date s /\ t_date s <= day_to h) ->
+    (forall s1 s2, List.In s1 (d_series db) -> List.In s2 (d_series db) ->
+       label_str (sort_labels (sort_labels (t_labels s1))) = label_str (sort_labels (sort_labels (t_labels s2))) -> t_fp s1 = t_fp s2) ->
+    exists rows out, prom_query_rows re_match cluster dbname h ms db = Some rows /\
+      prom_select re_match cluster dbname h ms db = Some out /\
+      NoDup (map o_fp out) /\
+      (forall fp, List.In fp (map o_fp out) <->
+                  List.In fp (expected_fps re_full (day_from h) ms (d_series db)) /\
+                  exists s, List.In s (d_samples db) /\ window_ok h s = true /\ sm_fp s = fp) /\
+      (forall o, List.In o out ->
+         (exists s, List.In s (d_series db) /\ t_fp s = o_fp o /\ prom_matches re_full ms (t_labels s) = true /\
+                    (forall kv, List.In kv (o_labels o) <-> List.In kv (t_labels s))) /\
+         o_samples o = rows_of (o_fp o) rows /\
+         StronglySorted Z.le (map fst (o_samples o))).
+Proof. intros re_match re_full Hl. intros. now apply (prom_select_exact_series re_match re_full Hl). Qed.
+Print Assumptions prom_select_exact_partial_series.
+
 (* The row loop turns any fingerprint-contiguous row list into one series per fingerprint holding exactly
    that fingerprint's rows, in order (after MapResult when the down-sampled count_over_time installed it). *)
 Theorem select_groups_rows : forall mr rows, contiguousb rows = true ->
@@ -131,9 +159,17 @@ Proof. exact use_raw_data_spec. Qed.
 Print Assumptions use_raw_data_decision.
 
 (* ---------- profile (Pyroscope) selectors ----------
-   prof_fp_sel is the list-function reading of the statement StreamSelectorPlanner emits (its agreement
-   with the reference interpreter on the planner's own tree is checked by computation on every generated
-   case, verdict 9 of psem_verdict); pgin_of derives profiles_series_gin from the stored series. *)
+   prof_fp_sel is the list-function reading of the statement StreamSelectorPlanner emits (proved equal to the
+   reference interpreter on the planner's own tree: prof_statement_sql_meaning); pgin_of derives
+   profiles_series_gin from the stored series. *)
+
+(* The reference interpreter applied to the profile selector planner's own tree (the one whose rendering is
+   compared byte for byte with the implementation's SQL) computes the list function prof_fp_sel. *)
+Theorem prof_statement_sql_meaning : forall re cte tbl from_ns to_ns sels rows,
+  eval_fpq re cte (prof_selector tbl from_ns to_ns sels) (map pgin_env rows) =
+  prof_fp_sel re (from_day from_ns) (to_ns / (86400 * 1000000000)) (map prof_selector_val sels) rows.
+Proof. exact eval_prof_selector. Qed.
+Print Assumptions prof_statement_sql_meaning.
 
 (* which fingerprints the statement returns: with key/value selectors, those for which every such selector
    is witnessed by an index row inside the date bounds that also passes every pseudo-label condition;
